@@ -1019,3 +1019,128 @@ VARIANTS += [
  dict(name='pipeline-helper-returns-fresh-outcome', expect='flagged(oci/same-outcome)',
       edits=pipeline(PIPE_HELPER.replace('\treturn outcome, payload, nil\n', '\treturn &notation.VerificationOutcome{RawSignature: sigBlob, VerificationLevel: verificationLevel}, payload, nil\n'))),
 ]
+
+# ---- fifth pass, class E: a step that has no verdict among its results and reports through the outcome it is handed ------
+REC_SIG = 'func recordMetadataMismatch(logger log.Logger, signed *envelope.Payload, required map[string]string, result *notation.VerificationOutcome) {\n'
+REC_HELPER = REC_SIG + '''	if len(required) == 0 {
+		return
+	}
+	if err := verifyUserMetadata(logger, signed, required); err != nil {
+		result.Error = err
+	}
+}
+
+'''
+REC_CALL = '\trecordMetadataMismatch(logger, payload, opts.UserMetadata, outcome)\n'
+def recorder(helper=REC_HELPER, call=REC_CALL, call_blob=None, tail='\n\treturn outcome, outcome.Error\n}\n\n'):
+    return [(V, META_CALL_OCI, call + tail + helper + 'func (v *verifier) processSignature'),
+            (V, META_CALL_BLOB, (call_blob or call) + tail + '// Verify verifies')]
+# the helper is handed the outcome only and decodes the signed payload again itself
+REC_WHOLE = '''func recordMetadataMismatch(logger log.Logger, result *notation.VerificationOutcome, required map[string]string) {
+	if len(required) > 0 {
+		signed := &envelope.Payload{}
+		if err := json.Unmarshal(result.EnvelopeContent.Payload.Content, signed); err != nil {
+			result.Error = err
+			return
+		}
+		if err := verifyUserMetadata(logger, signed, required); err != nil {
+			result.Error = err
+		}
+	}
+}
+
+'''
+VARIANTS += [
+ dict(name='benign-metadata-recorded-in-outcome-by-void-helper', expect='silent', edits=recorder()),
+ dict(name='benign-metadata-void-helper-nested-guard', expect='silent',
+      edits=recorder(REC_SIG + '\tif len(required) > 0 {\n\t\terr := verifyUserMetadata(logger, signed, required)\n\t\tif err != nil {\n\t\t\tresult.Error = err\n\t\t}\n\t}\n}\n\n')),
+ dict(name='benign-metadata-void-helper-handed-whole-outcome', expect='silent',
+      edits=recorder(REC_WHOLE, '\trecordMetadataMismatch(logger, outcome, opts.UserMetadata)\n')),
+ dict(name='benign-metadata-void-helper-log-line-before-return', expect='silent',
+      edits=recorder(tail='\tlogger.Debug("verification finished")\n\treturn outcome, outcome.Error\n}\n\n')),
+ # broken counterparts
+ dict(name='metadata-void-helper-only-logs-the-failure', expect='flagged(metadata-gate)',
+      edits=recorder(REC_HELPER.replace('\t\tresult.Error = err\n', '\t\tlogger.Error(err)\n'))),
+ dict(name='metadata-void-helper-handed-another-outcome', expect='flagged(oci/metadata-gate)',
+      edits=recorder(call='\trecordMetadataMismatch(logger, payload, opts.UserMetadata, &notation.VerificationOutcome{})\n')),
+ dict(name='metadata-void-helper-bypassed-when-signature-has-no-annotations', expect='flagged(metadata-gate)',
+      edits=recorder(REC_HELPER.replace('if len(required) == 0 {', 'if len(required) == 0 || len(signed.TargetArtifact.Annotations) == 0 {'))),
+ dict(name='metadata-void-helper-overwrites-earlier-failure', expect='flagged(oci/)',
+      edits=recorder(REC_HELPER.replace('\tif err := verifyUserMetadata(logger, signed, required); err != nil {\n\t\tresult.Error = err\n\t}\n', '\tresult.Error = verifyUserMetadata(logger, signed, required)\n'))),
+ dict(name='metadata-void-helper-verdict-cleared-after-the-call', expect='flagged(oci/)',
+      edits=recorder(tail='\tif len(opts.UserMetadata) > 0 && outcome.Error != nil {\n\t\tlogger.Warn(outcome.Error)\n\t\toutcome.Error = nil\n\t}\n\treturn outcome, outcome.Error\n}\n\n')),
+ dict(name='metadata-void-helper-returns-before-recording', expect='flagged(metadata-gate)',
+      edits=recorder(REC_HELPER.replace('\t\tresult.Error = err\n', '\t\tif result.VerificationLevel.Name != "strict" {\n\t\t\treturn\n\t\t}\n\t\tresult.Error = err\n'))),
+]
+
+# ---- fifth pass, class F: the verification proper in an inner method that returns the error; the entry point stores it
+# into the outcome at one place; the signature bytes are read back from the outcome literal
+_OCI_BODY = _SRC[_SRC.index(OCI_OLD):_SRC.index(OCI_OLD) + len(OCI_OLD)]
+_BLOB_OLD_START = '\terr = v.processSignature(ctx, signature, opts.SignatureMediaType, trustPolicy.Name,'
+BLOB_OLD = _SRC[_SRC.index(_BLOB_OLD_START):_SRC.index('// Verify verifies the signature associated to the target OCI')]
+def inner_body(old, sigarg='outcome.RawSignature'):
+    b = old.replace('ctx, signature, ', 'ctx, ' + sigarg + ', ')
+    b = b.replace('\terr = v.processSignature(', '\tlogger := log.GetLogger(ctx)\n\terr := v.processSignature(', 1)
+    b = b.replace('\t\toutcome.Error = err\n\t\treturn outcome, err\n', '\t\treturn err\n')
+    b = b.replace('\t\toutcome.Error = descErr\n\t\treturn outcome, descErr\n', '\t\treturn descErr\n')
+    b = b.replace('\t\toutcome.Error = errors.New(', '\t\tverificationErr = errors.New(')
+    b = b.replace('\t\t\toutcome.Error = err\n', '\t\t\tverificationErr = err\n')
+    b = b.replace('\treturn outcome, outcome.Error\n', '\treturn verificationErr\n')
+    b = b.replace('\tif !content.Equal(', '\tvar verificationErr error\n\tif !content.Equal(').replace('\tif desc.Digest != ', '\tvar verificationErr error\n\tif desc.Digest != ')
+    return b
+OCI_INNER_SIG = 'func (v *verifier) verifyOCIEnvelope(ctx context.Context, desc ocispec.Descriptor, trustPolicy *trustpolicy.TrustPolicy, opts notation.VerifierVerifyOptions, outcome *notation.VerificationOutcome) error {\n\tenvelopeMediaType, pluginConfig := opts.SignatureMediaType, opts.PluginConfig\n'
+BLOB_INNER_SIG = 'func (v *verifier) verifyBlobEnvelope(ctx context.Context, descGenFunc notation.BlobDescriptorGenerator, trustPolicy *trustpolicy.BlobTrustPolicy, opts notation.BlobVerifierVerifyOptions, outcome *notation.VerificationOutcome) error {\n'
+OCI_OUTER = '\toutcome.Error = v.verifyOCIEnvelope(ctx, desc, trustPolicy, opts, outcome)\n\treturn outcome, outcome.Error\n}\n\n'
+BLOB_OUTER = '\toutcome.Error = v.verifyBlobEnvelope(ctx, descGenFunc, trustPolicy, opts, outcome)\n\treturn outcome, outcome.Error\n}\n\n'
+def split(oci_inner=None, blob_inner=None, oci_outer=OCI_OUTER, blob_outer=BLOB_OUTER, extra=()):
+    oi = oci_inner if oci_inner is not None else inner_body(OCI_OLD)
+    bi = blob_inner if blob_inner is not None else inner_body(BLOB_OLD)
+    return [(V, OCI_OLD, oci_outer + OCI_INNER_SIG + oi), (V, BLOB_OLD, blob_outer + BLOB_INNER_SIG + bi),
+            (V, '\tpluginConfig := opts.PluginConfig\n', '')] + list(extra)
+VARIANTS += [
+ dict(name='benign-inner-method-returns-verdict-stored-once', expect='silent', edits=split()),
+ dict(name='benign-inner-method-verdict-in-local-then-stored', expect='silent',
+      edits=split(oci_outer='\terr = v.verifyOCIEnvelope(ctx, desc, trustPolicy, opts, outcome)\n\toutcome.Error = err\n\treturn outcome, err\n}\n\n',
+                  blob_outer='\terr = v.verifyBlobEnvelope(ctx, descGenFunc, trustPolicy, opts, outcome)\n\toutcome.Error = err\n\treturn outcome, err\n}\n\n')),
+ dict(name='benign-signature-read-back-from-outcome-inline', expect='silent', all=True, file=V,
+      find='processSignature(ctx, signature, ', replace='processSignature(ctx, outcome.RawSignature, '),
+ # broken counterparts
+ dict(name='inner-method-parses-another-field-of-the-outcome', expect='flagged(parse-envelope)',
+      edits=split(oci_inner=inner_body(OCI_OLD, 'outcome.EnvelopeContent.Payload.Content'))),
+ dict(name='inner-method-outcome-signature-overwritten', expect='flagged(parse-envelope)',
+      edits=split(oci_inner=inner_body(OCI_OLD).replace('\tlogger := log.GetLogger(ctx)\n', '\tlogger := log.GetLogger(ctx)\n\tif sig, ok := opts.PluginConfig["signature"]; ok {\n\t\toutcome.RawSignature = []byte(sig)\n\t}\n', 1))),
+ dict(name='inner-method-outcome-literal-holds-other-bytes', expect='flagged(oci/parse-envelope)',
+      edits=split(extra=[(V, _OCI_START + '&notation.VerificationOutcome{\n\t\tRawSignature:      signature,', _OCI_START + '&notation.VerificationOutcome{\n\t\tRawSignature:      []byte(opts.ArtifactReference),')])),
+ dict(name='inner-method-mediatype-compare-dropped', expect='flagged(blob/mediatype-equal)',
+      edits=split(blob_inner=inner_body(BLOB_OLD).replace(' ||\n\t\t(desc.MediaType != "" && desc.MediaType != payload.TargetArtifact.MediaType) {', ' {'))),
+ dict(name='inner-method-mediatype-compared-with-undecoded-payload', expect='flagged(blob/mediatype-equal)',
+      edits=split(blob_inner=inner_body(BLOB_OLD).replace('(desc.MediaType != "" && desc.MediaType != payload.TargetArtifact.MediaType)', '(desc.MediaType != "" && desc.MediaType != (&envelope.Payload{}).TargetArtifact.MediaType)'))),
+ dict(name='inner-method-verdict-dropped-by-entry-point', expect='flagged(oci/)',
+      edits=split(oci_outer='\tif err := v.verifyOCIEnvelope(ctx, desc, trustPolicy, opts, outcome); err != nil {\n\t\tlogger.Warn(err)\n\t}\n\treturn outcome, outcome.Error\n}\n\n')),
+ dict(name='inner-method-metadata-overwrites-mismatch', expect='flagged(oci/descriptor-equal)',
+      edits=split(oci_inner=inner_body(OCI_OLD).replace('\t\terr := verifyUserMetadata(logger, payload, opts.UserMetadata)\n\t\tif err != nil {\n\t\t\tverificationErr = err\n\t\t}\n', '\t\tverificationErr = verifyUserMetadata(logger, payload, opts.UserMetadata)\n'))),
+]
+
+# API option forwarding (forward.go): notation.Verify rebuilds the caller's options for the verifier
+N_ = 'notation.go'
+FW_OLD = '\topts := VerifierVerifyOptions{\n\t\tArtifactReference: verifyOpts.ArtifactReference,\n\t\tPluginConfig:      verifyOpts.PluginConfig,\n\t\tUserMetadata:      verifyOpts.UserMetadata,\n\t}\n'
+VARIANTS += [
+ dict(name='api-verify-drops-required-metadata', file=N_, expect='flagged(api/options-forwarded/ngo.Verify/VerifierVerifyOptions.UserMetadata)', find=FW_OLD,
+      replace='\topts := VerifierVerifyOptions{\n\t\tArtifactReference: verifyOpts.ArtifactReference,\n\t\tPluginConfig:      verifyOpts.PluginConfig,\n\t}\n'),
+ dict(name='api-verify-drops-artifact-reference', file=N_, expect='flagged(api/options-forwarded/ngo.Verify/VerifierVerifyOptions.ArtifactReference)', find=FW_OLD,
+      replace='\topts := VerifierVerifyOptions{\n\t\tPluginConfig: verifyOpts.PluginConfig,\n\t\tUserMetadata: verifyOpts.UserMetadata,\n\t}\n'),
+ dict(name='api-verify-metadata-taken-from-plugin-config', file=N_, expect='flagged(api/options-forwarded/ngo.Verify/VerifierVerifyOptions.UserMetadata)', find=FW_OLD,
+      replace='\topts := VerifierVerifyOptions{\n\t\tArtifactReference: verifyOpts.ArtifactReference,\n\t\tPluginConfig:      verifyOpts.PluginConfig,\n\t\tUserMetadata:      verifyOpts.PluginConfig,\n\t}\n'),
+ dict(name='api-verify-metadata-only-without-skip-check', file=N_, expect='flagged(api/options-forwarded/ngo.Verify/VerifierVerifyOptions.UserMetadata)', find=FW_OLD,
+      replace='\topts := VerifierVerifyOptions{\n\t\tArtifactReference: verifyOpts.ArtifactReference,\n\t\tPluginConfig:      verifyOpts.PluginConfig,\n\t}\n\tif _, ok := verifier.(verifySkipper); !ok {\n\t\topts.UserMetadata = verifyOpts.UserMetadata\n\t}\n'),
+ dict(name='api-verify-helper-builds-options-without-metadata', file=N_, expect='flagged(api/options-forwarded/ngo.Verify/VerifierVerifyOptions.UserMetadata)', find=FW_OLD,
+      replace='\topts := verifierOptionsOf(verifyOpts)\n',
+      edits=[(N_, '// Verify performs signature verification on each of the notation supported', 'func verifierOptionsOf(o VerifyOptions) VerifierVerifyOptions {\n\treturn VerifierVerifyOptions{\n\t\tArtifactReference: o.ArtifactReference,\n\t\tPluginConfig:      o.PluginConfig,\n\t}\n}\n\n// Verify performs signature verification on each of the notation supported')]),
+ dict(name='benign-api-verify-options-filled-in-field-by-field', file=N_, expect='silent', find=FW_OLD,
+      replace='\tvar opts VerifierVerifyOptions\n\topts.UserMetadata = verifyOpts.UserMetadata\n\topts.PluginConfig = verifyOpts.PluginConfig\n\topts.ArtifactReference = verifyOpts.ArtifactReference\n'),
+ dict(name='benign-api-verify-options-through-locals', file=N_, expect='silent', find=FW_OLD,
+      replace='\trequired, callerRef := verifyOpts.UserMetadata, verifyOpts.ArtifactReference\n\topts := VerifierVerifyOptions{\n\t\tArtifactReference: callerRef,\n\t\tPluginConfig:      verifyOpts.PluginConfig,\n\t\tUserMetadata:      required,\n\t}\n'),
+ dict(name='benign-api-verify-helper-builds-options', file=N_, expect='silent', find=FW_OLD,
+      replace='\topts := verifierOptionsOf(verifyOpts)\n',
+      edits=[(N_, '// Verify performs signature verification on each of the notation supported', 'func verifierOptionsOf(o VerifyOptions) VerifierVerifyOptions {\n\treturn VerifierVerifyOptions{\n\t\tArtifactReference: o.ArtifactReference,\n\t\tPluginConfig:      o.PluginConfig,\n\t\tUserMetadata:      o.UserMetadata,\n\t}\n}\n\n// Verify performs signature verification on each of the notation supported')]),
+]
